@@ -4,10 +4,11 @@
 (* msg_server.go; x/skyway/keeper/attestation_handler.go handleLightNode-  *)
 (* Sale) as one block sees them.  Every action is one block.               *)
 (*                                                                         *)
-(*  AddLicense(who, as, c, amt, m)  MsgAddLightNodeClientLicense signed by *)
-(*      who with Metadata.Creator = as: anybody may send it, the creator   *)
-(*      pays amt into the x/paloma module account (escrow); a base account *)
-(*      is created for the client address c.                               *)
+(*  AddLicense(who, as, c, amt, m, d)  MsgAddLightNodeClientLicense signed *)
+(*      by who with Metadata.Creator = as: anybody may send it, the        *)
+(*      creator pays amt OF ANY DENOMINATION d (nothing restricts the coin *)
+(*      to the bond denom) into the x/paloma module account (escrow); a    *)
+(*      base account is created for the client address c.                  *)
 (*  Register(who, as)   MsgRegisterLightNodeClient: activates the licence  *)
 (*      of Metadata.Creator: the account becomes a continuous vesting      *)
 (*      account (start = block time, end = start + months), the escrowed   *)
@@ -38,7 +39,8 @@ EXTENDS Integers, Sequences, FiniteSets, TLC
 CONSTANTS Users,        \* accounts with funds (positive integers)
           Fresh,        \* client key pairs without an account
           HasAcct,      \* a user whose address is also tried as client address
-          Funds,        \* [Users -> Nat] balances at genesis
+          Denoms,       \* denominations (positive integers); Bond = 1 is the bond denom (sales, gifts), the others only direct licences
+          Funds,        \* [Users -> [Denoms -> Nat]] balances at genesis
           Amounts,      \* licence amounts (in Unit), 0 included
           Months,       \* vesting months of direct licences
           SaleMonths,   \* vesting months of sold licences (24 in the code)
@@ -47,17 +49,17 @@ CONSTANTS Users,        \* accounts with funds (positive integers)
           SaleChains,   \* chains a sale can be reported from
           Contracts     \* sale contract addresses (positive integers)
 
-VARIABLES escrow,       \* balance of the x/paloma module account
-          lic,          \* not yet activated licences: client -> [amt, months]
+VARIABLES escrow,       \* balance of the x/paloma module account, per denom
+          lic,          \* not yet activated licences: client -> [amt, months, den]
           acct,         \* account of a client address: "none" | "base" | "vesting"
-          vest,         \* vesting accounts: client -> [start, end, orig]
-          bal,          \* balances of users and clients
+          vest,         \* vesting accounts: client -> [start, end, orig, den]
+          bal,          \* balances of users and clients, per denom
           clients,      \* registered light node clients
           grants,       \* clients holding a fee allowance of the fee granter
           funders,      \* configured funders (sequence of users)
           feegr,        \* fee granter configured
           sale,         \* configured sale contract per chain (0 = none)
-          gifts,        \* coins that reached the escrow account from outside
+          gifts,        \* coins that reached the escrow account from outside, per denom
           now,
           res, last, nops
 
@@ -66,60 +68,63 @@ fundv == <<escrow, lic, acct, vest, bal, clients, grants, gifts>>
 svars == <<fundv, cfgv, now>>
 vars  == <<svars, res, last, nops>>
 
+Bond == 1
 Addrs == Fresh \cup {HasAcct}         \* client addresses
 Signers == Users \cup Fresh
-Rec(a, who, as, c, amt, m, ch, k, q, via) ==
-  [act |-> a, who |-> who, as |-> as, c |-> c, amt |-> amt, m |-> m, ch |-> ch, k |-> k, q |-> q, via |-> via]
+Rec(a, who, as, c, amt, m, ch, k, q, via, d) ==
+  [act |-> a, who |-> who, as |-> as, c |-> c, amt |-> amt, m |-> m, ch |-> ch, k |-> k, q |-> q, via |-> via, d |-> d]
 Done(r, w) == res' = w /\ last' = r /\ nops' = nops + 1
 Ext(f, k, v) == [x \in DOMAIN f \cup {k} |-> IF x = k THEN v ELSE f[x]]
 Drop(f, k) == [x \in DOMAIN f \ {k} |-> f[x]]
 HasAccount(a) == a \in Users \/ acct[a] # "none"
 Period(m) == m * MonthTicks
+ZeroD == [d \in Denoms |-> 0]
 
 Init ==
-  /\ escrow = 0 /\ lic = [c \in {} |-> 0]
+  /\ escrow = ZeroD /\ lic = [c \in {} |-> 0]
   /\ acct = [c \in Fresh |-> "none"] /\ vest = [c \in {} |-> 0]
-  /\ bal = [a \in Users \cup Fresh |-> IF a \in Users THEN Funds[a] ELSE 0]
+  /\ bal = [a \in Users \cup Fresh |-> IF a \in Users THEN [d \in Denoms |-> Funds[a][d]] ELSE ZeroD]
   /\ clients = {} /\ grants = {}
   /\ funders = <<>> /\ feegr = FALSE /\ sale = [ch \in SaleChains |-> 0]
-  /\ gifts = 0 /\ now = 0
-  /\ res = "init" /\ last = Rec("Init", 0, 0, 0, 0, 0, 0, 0, 0, "") /\ nops = 0
+  /\ gifts = ZeroD /\ now = 0
+  /\ res = "init" /\ last = Rec("Init", 0, 0, 0, 0, 0, 0, 0, 0, "", 0) /\ nops = 0
 
 (* CreateLightNodeClientLicense: licence exists? account exists? create account; transfer; store licence.   *)
-LicWhy(payer, c, amt) ==
+LicWhy(payer, c, amt, d) ==
   IF c \in DOMAIN lic THEN "licexists"
   ELSE IF HasAccount(c) THEN "acctexists"
   ELSE IF amt = 0 THEN "invalid"
-  ELSE IF bal[payer] < amt * Unit THEN "funds"
+  ELSE IF bal[payer][d] < amt * Unit THEN "funds"
   ELSE "ok"
-LicEffect(payer, c, amt, m) ==
-  /\ lic' = Ext(lic, c, [amt |-> amt * Unit, months |-> m])
+LicEffect(payer, c, amt, m, d) ==
+  /\ lic' = Ext(lic, c, [amt |-> amt * Unit, months |-> m, den |-> d])
   /\ acct' = [acct EXCEPT ![c] = "base"]
-  /\ bal' = [bal EXCEPT ![payer] = @ - amt * Unit]
-  /\ escrow' = escrow + amt * Unit
+  /\ bal' = [bal EXCEPT ![payer][d] = @ - amt * Unit]
+  /\ escrow' = [escrow EXCEPT ![d] = @ + amt * Unit]
 
-AddLicenseWhy(who, as, c, amt) == IF who # as THEN "err" ELSE LicWhy(as, c, amt)
-AddLicenseEff(w, as, c, amt, m) ==
-  IF w = "ok" THEN LicEffect(as, c, amt, m) /\ UNCHANGED <<vest, clients, grants, gifts>>
+AddLicenseWhy(who, as, c, amt, d) == IF who # as THEN "err" ELSE LicWhy(as, c, amt, d)
+AddLicenseEff(w, as, c, amt, m, d) ==
+  IF w = "ok" THEN LicEffect(as, c, amt, m, d) /\ UNCHANGED <<vest, clients, grants, gifts>>
               ELSE UNCHANGED fundv
-AddLicense(who, as, c, amt, m) ==
-  LET w == AddLicenseWhy(who, as, c, amt) IN
-  /\ AddLicenseEff(w, as, c, amt, m)
+AddLicense(who, as, c, amt, m, d) ==
+  LET w == AddLicenseWhy(who, as, c, amt, d) IN
+  /\ AddLicenseEff(w, as, c, amt, m, d)
   /\ UNCHANGED <<cfgv, now>>
-  /\ Done(Rec("AddLicense", who, as, c, amt, m, 0, 0, 0, ""), w)
+  /\ Done(Rec("AddLicense", who, as, c, amt, m, 0, 0, 0, "", d), w)
 
 (* a signer without an account is rejected by the ante chain; creator # signer likewise *)
 SignWhy(who, as) == IF ~HasAccount(who) THEN "err" ELSE IF who # as THEN "err" ELSE "ok"
 
 RegisterWhy(who, as) == IF SignWhy(who, as) # "ok" THEN "err" ELSE IF as \notin DOMAIN lic THEN "nolicense" ELSE "ok"
-\* t0, t1: start and end of the vesting window (block time, block time + the licence's months)
+\* t0, t1: start and end of the vesting window (block time, block time + the licence's months);
+\* the licence's OWN coin leaves the escrow and becomes the original vesting
 RegisterEff(w, as, t0, t1) ==
   IF w = "ok"
   THEN LET l == lic[as] IN
        /\ acct' = [acct EXCEPT ![as] = "vesting"]
-       /\ vest' = Ext(vest, as, [start |-> t0, end |-> t1, orig |-> l.amt])
-       /\ escrow' = escrow - l.amt
-       /\ bal' = [bal EXCEPT ![as] = @ + l.amt]
+       /\ vest' = Ext(vest, as, [start |-> t0, end |-> t1, orig |-> l.amt, den |-> l.den])
+       /\ escrow' = [escrow EXCEPT ![l.den] = @ - l.amt]
+       /\ bal' = [bal EXCEPT ![as][l.den] = @ + l.amt]
        /\ lic' = Drop(lic, as)
        /\ clients' = clients \cup {as}
        /\ UNCHANGED <<grants, gifts>>
@@ -128,17 +133,17 @@ Register(who, as) ==
   LET w == RegisterWhy(who, as) IN
   /\ RegisterEff(w, as, now, now + (IF w = "ok" THEN Period(lic[as].months) ELSE 0))
   /\ UNCHANGED <<cfgv, now>>
-  /\ Done(Rec("Register", who, as, 0, 0, 0, 0, 0, 0, ""), w)
+  /\ Done(Rec("Register", who, as, 0, 0, 0, 0, 0, 0, "", 0), w)
 
 AuthWhy(who, as) == IF SignWhy(who, as) # "ok" THEN "err" ELSE IF as \notin clients THEN "notfound" ELSE "ok"
 Auth(who, as) ==
   LET w == AuthWhy(who, as) IN
   /\ UNCHANGED svars
-  /\ Done(Rec("Auth", who, as, 0, 0, 0, 0, 0, 0, ""), w)
+  /\ Done(Rec("Auth", who, as, 0, 0, 0, 0, 0, 0, "", 0), w)
 
-(* the funder the code picks: the LAST configured funder with enough balance (0 = none) *)
+(* the funder the code picks: the LAST configured funder with enough balance of the bond denom (0 = none) *)
 RECURSIVE PickFrom(_, _, _)
-PickFrom(fs, i, need) == IF i = 0 THEN 0 ELSE IF bal[fs[i]] >= need THEN fs[i] ELSE PickFrom(fs, i - 1, need)
+PickFrom(fs, i, need) == IF i = 0 THEN 0 ELSE IF bal[fs[i]][Bond] >= need THEN fs[i] ELSE PickFrom(fs, i - 1, need)
 Funder(amt) == PickFrom(funders, Len(funders), amt * Unit)
 Authorised(ch, k) == k # 0 /\ sale[ch] = k
 SaleWhy(ch, k, c, amt) ==
@@ -146,12 +151,12 @@ SaleWhy(ch, k, c, amt) ==
   ELSE IF ~feegr THEN "nofeegranter"
   ELSE IF Len(funders) = 0 THEN "nofunder"
   ELSE IF Funder(amt) = 0 THEN "funds"
-  ELSE IF LicWhy(Funder(amt), c, amt) # "ok" THEN LicWhy(Funder(amt), c, amt)
+  ELSE IF LicWhy(Funder(amt), c, amt, Bond) # "ok" THEN LicWhy(Funder(amt), c, amt, Bond)
   ELSE IF c \in grants THEN "granted"
   ELSE "ok"
 
 SaleEff(w, c, amt) ==
-  IF w = "ok" THEN /\ LicEffect(Funder(amt), c, amt, SaleMonths)
+  IF w = "ok" THEN /\ LicEffect(Funder(amt), c, amt, SaleMonths, Bond)
                    /\ grants' = grants \cup {c}
                    /\ UNCHANGED <<vest, clients, gifts>>
               ELSE UNCHANGED fundv
@@ -159,38 +164,40 @@ Sale(ch, k, c, amt) ==
   LET w == SaleWhy(ch, k, c, amt) IN
   /\ SaleEff(w, c, amt)
   /\ UNCHANGED <<cfgv, now>>
-  /\ Done(Rec("Sale", 0, 0, c, amt, 0, ch, k, 0, ""), w)
+  /\ Done(Rec("Sale", 0, 0, c, amt, 0, ch, k, 0, "", Bond), w)
 
 SetFunders(fs) == /\ funders' = fs /\ UNCHANGED <<fundv, feegr, sale, now>>
-                  /\ Done(Rec("SetFunders", IF Len(fs) >= 1 THEN fs[1] ELSE 0, IF Len(fs) >= 2 THEN fs[2] ELSE 0, 0, 0, 0, 0, 0, 0, ""), "ok")
+                  /\ Done(Rec("SetFunders", IF Len(fs) >= 1 THEN fs[1] ELSE 0, IF Len(fs) >= 2 THEN fs[2] ELSE 0, 0, 0, 0, 0, 0, 0, "", 0), "ok")
 SetFeegranter == /\ feegr' = TRUE /\ UNCHANGED <<fundv, funders, sale, now>>
-                 /\ Done(Rec("SetFeegranter", 0, 0, 0, 0, 0, 0, 0, 0, ""), "ok")
+                 /\ Done(Rec("SetFeegranter", 0, 0, 0, 0, 0, 0, 0, 0, "", 0), "ok")
 \* the proposal replaces the whole list: contract k for chain ch only (k = 0: empty list)
 SetSale(ch, k) == /\ sale' = [x \in SaleChains |-> IF x = ch THEN k ELSE 0] /\ UNCHANGED <<fundv, funders, feegr, now>>
-                  /\ Done(Rec("SetSale", 0, 0, 0, 0, 0, ch, k, 0, ""), "ok")
+                  /\ Done(Rec("SetSale", 0, 0, 0, 0, 0, ch, k, 0, "", 0), "ok")
 
-GiftWhy(who, amt, via) == IF via = "tx" THEN "blocked" ELSE IF bal[who] < amt * Unit THEN "funds" ELSE "ok"
+\* gifts are made in the bond denom
+GiftWhy(who, amt, via) == IF via = "tx" THEN "blocked" ELSE IF bal[who][Bond] < amt * Unit THEN "funds" ELSE "ok"
 GiftEff(w, who, amt) ==
-  IF w = "ok" THEN /\ bal' = [bal EXCEPT ![who] = @ - amt * Unit] /\ escrow' = escrow + amt * Unit /\ gifts' = gifts + amt * Unit
+  IF w = "ok" THEN /\ bal' = [bal EXCEPT ![who][Bond] = @ - amt * Unit] /\ escrow' = [escrow EXCEPT ![Bond] = @ + amt * Unit]
+                   /\ gifts' = [gifts EXCEPT ![Bond] = @ + amt * Unit]
                    /\ UNCHANGED <<lic, acct, vest, clients, grants>>
               ELSE UNCHANGED fundv
 Gift(who, amt, via) ==
   LET w == GiftWhy(who, amt, via) IN
   /\ GiftEff(w, who, amt)
   /\ UNCHANGED <<cfgv, now>>
-  /\ Done(Rec("Gift", who, who, 0, amt, 0, 0, 0, 0, via), w)
+  /\ Done(Rec("Gift", who, who, 0, amt, 0, 0, 0, 0, via, Bond), w)
 
 \* time passes until quarter q of c's vesting window (never backwards)
 Advance(c, q) ==
   /\ c \in DOMAIN vest
   /\ LET t == vest[c].start + (q * (vest[c].end - vest[c].start)) \div 4 IN now' = IF t > now THEN t ELSE now
   /\ UNCHANGED <<fundv, cfgv>>
-  /\ Done(Rec("Advance", 0, 0, c, 0, 0, 0, 0, q, ""), "ok")
+  /\ Done(Rec("Advance", 0, 0, c, 0, 0, 0, 0, q, "", 0), "ok")
 
 FunderLists == {<<>>} \cup {<<a>> : a \in Users} \cup {<<a, b>> : a \in Users, b \in Users}
 
 Next ==
-  \/ \E who \in Users, as \in Users, c \in Addrs, amt \in Amounts, m \in Months : AddLicense(who, as, c, amt, m)
+  \/ \E who \in Users, as \in Users, c \in Addrs, amt \in Amounts, m \in Months, d \in Denoms : AddLicense(who, as, c, amt, m, d)
   \/ \E who \in Signers, as \in Signers : Register(who, as) \/ Auth(who, as)
   \/ \E ch \in SaleChains, k \in Contracts, c \in Addrs, amt \in Amounts : Sale(ch, k, c, amt)
   \/ \E fs \in FunderLists : SetFunders(fs)
@@ -202,24 +209,26 @@ Next ==
 Spec == Init /\ [][Next]_vars
 
 -----------------------------------------------------------------------------
-(* Property C18 *)
-RECURSIVE SumLic(_)
-SumLic(S) == IF S = {} THEN 0 ELSE LET x == CHOOSE y \in S : TRUE IN lic[x].amt + SumLic(S \ {x})
-RECURSIVE SumBal(_)
-SumBal(S) == IF S = {} THEN 0 ELSE LET x == CHOOSE y \in S : TRUE IN bal[x] + SumBal(S \ {x})
+(* Property C18 - every statement about coins holds PER DENOMINATION *)
+RECURSIVE SumLic(_, _)
+SumLic(S, d) == IF S = {} THEN 0 ELSE LET x == CHOOSE y \in S : TRUE IN (IF lic[x].den = d THEN lic[x].amt ELSE 0) + SumLic(S \ {x}, d)
+RECURSIVE SumBal(_, _)
+SumBal(S, d) == IF S = {} THEN 0 ELSE LET x == CHOOSE y \in S : TRUE IN bal[x][d] + SumBal(S \ {x}, d)
 
 \* coins of c that are still locked at time t
 Locked(c, t) == LET v == vest[c] IN
   IF t <= v.start THEN v.orig ELSE IF t >= v.end THEN 0 ELSE v.orig - (v.orig * (t - v.start)) \div (v.end - v.start)
 
 TypeOK ==
-  /\ escrow >= 0 /\ gifts >= 0
+  /\ \A d \in Denoms : escrow[d] >= 0 /\ gifts[d] >= 0
   /\ DOMAIN lic \subseteq Fresh /\ DOMAIN vest \subseteq Fresh
-  /\ \A a \in DOMAIN bal : bal[a] >= 0
+  /\ \A c \in DOMAIN lic : lic[c].den \in Denoms
+  /\ \A c \in DOMAIN vest : vest[c].den \in Denoms
+  /\ \A a \in DOMAIN bal : \A d \in Denoms : bal[a][d] >= 0
   /\ clients \subseteq Fresh /\ grants \subseteq Fresh
 
-\* the escrow covers - and without gifts equals - the licences that are not yet activated
-EscrowCovers == escrow = SumLic(DOMAIN lic) + gifts /\ escrow >= SumLic(DOMAIN lic)
+\* in every denomination the escrow covers - and without gifts equals - the licences that are not yet activated
+EscrowCovers == \A d \in Denoms : escrow[d] = SumLic(DOMAIN lic, d) + gifts[d] /\ escrow[d] >= SumLic(DOMAIN lic, d)
 \* a licence belongs to an address with a plain account that was made for it; activated addresses never hold one
 LicenceShape == \A c \in DOMAIN lic : acct[c] = "base" /\ c \notin DOMAIN vest /\ lic[c].amt > 0
 VestShape == \A c \in Fresh : (acct[c] = "vesting") = (c \in DOMAIN vest)
@@ -233,9 +242,10 @@ CreateOnlyFresh ==
   \A c \in DOMAIN lic' \ DOMAIN lic :
      /\ Ok /\ A.act \in {"AddLicense", "Sale"} /\ A.c = c
      /\ c \notin DOMAIN lic /\ ~HasAccount(c)
-     /\ lic'[c].amt = A.amt * Unit /\ A.amt > 0
+     /\ lic'[c].amt = A.amt * Unit /\ A.amt > 0 /\ lic'[c].den = A.d
      /\ lic'[c].months = IF A.act = "Sale" THEN SaleMonths ELSE A.m
      /\ (A.act = "AddLicense" => A.who = A.as)
+     /\ (A.act = "Sale" => A.d = Bond)
 \* licences do not change, they disappear only by activation
 LicenceStable ==
   /\ \A c \in DOMAIN lic \cap DOMAIN lic' : lic'[c] = lic[c]
@@ -245,12 +255,14 @@ ActivateOnceBySelf ==
   \A c \in Fresh : (acct'[c] = "vesting" /\ acct[c] # "vesting") =>
      /\ Ok /\ A.act = "Register" /\ A.who = c /\ A.as = c
      /\ c \in DOMAIN lic /\ c \notin DOMAIN lic' /\ c \notin DOMAIN vest
-\* activation moves exactly the licensed amount from the escrow into a continuous vesting account that starts now
+\* activation moves exactly the licensed coin - amount AND denomination - from the escrow into a continuous vesting
+\* account that starts now; no other balance, no other denomination of the escrow moves
 ActivationMoves == (Ok /\ A.act = "Register") =>
         LET c == A.as IN
         /\ c \in DOMAIN lic /\ acct'[c] = "vesting" /\ c \in DOMAIN vest'
-        /\ vest'[c].orig = lic[c].amt /\ vest'[c].start = now'
-        /\ bal'[c] = bal[c] + lic[c].amt /\ escrow' = escrow - lic[c].amt
+        /\ vest'[c].orig = lic[c].amt /\ vest'[c].den = lic[c].den /\ vest'[c].start = now'
+        /\ bal'[c] = [bal[c] EXCEPT ![lic[c].den] = @ + lic[c].amt]
+        /\ escrow' = [escrow EXCEPT ![lic[c].den] = @ - lic[c].amt]
         /\ \A a \in DOMAIN bal \ {c} : bal'[a] = bal[a]
 ActivationEnd == (Ok /\ A.act = "Register" /\ A.as \in DOMAIN lic /\ A.as \in DOMAIN vest') =>
         vest'[A.as].end = now' + Period(lic[A.as].months)
@@ -261,14 +273,14 @@ ActivationVests == ActivationMoves /\ ActivationEnd /\ ScheduleFixed
 SaleOnlyIfConfigured == (A.act = "Sale") =>
   IF Ok THEN /\ Authorised(A.ch, A.k) /\ feegr /\ Len(funders) > 0
              /\ \E i \in DOMAIN funders : LET f == funders[i] IN
-                   /\ bal[f] >= A.amt * Unit /\ bal'[f] = bal[f] - A.amt * Unit
+                   /\ bal[f][Bond] >= A.amt * Unit /\ bal'[f] = [bal[f] EXCEPT ![Bond] = @ - A.amt * Unit]
                    /\ \A a \in DOMAIN bal \ {f} : bal'[a] = bal[a]
-             /\ escrow' = escrow + A.amt * Unit /\ A.c \in DOMAIN lic' \ DOMAIN lic /\ grants' = grants \cup {A.c}
+             /\ escrow' = [escrow EXCEPT ![Bond] = @ + A.amt * Unit] /\ A.c \in DOMAIN lic' \ DOMAIN lic /\ grants' = grants \cup {A.c}
         ELSE UNCHANGED fundv
 \* a rejected request changes nothing
 FailureIsNoOp == ~Ok => UNCHANGED <<fundv, cfgv>>
-\* coins are neither made nor lost
-Conserved == SumBal(DOMAIN bal)' + escrow' = SumBal(DOMAIN bal) + escrow
+\* coins are neither made nor lost, in any denomination
+Conserved == \A d \in Denoms : SumBal(DOMAIN bal, d)' + escrow'[d] = SumBal(DOMAIN bal, d) + escrow[d]
 
 PA_CreateOnlyFresh      == [][CreateOnlyFresh]_vars
 PA_LicenceStable        == [][LicenceStable]_vars
